@@ -41,18 +41,30 @@ const (
 func buildFixture(ctx context.Context, s *sut.SUT) (*fixture, error) {
 	fx := &fixture{}
 	steps := []func() error{
-		func() error { _, e := s.Pub.CreateTopic(ctx, &pubsubpb.Topic{Name: fxT1, Labels: map[string]string{"a": "b"}}); return e },
+		func() error {
+			_, e := s.Pub.CreateTopic(ctx, &pubsubpb.Topic{Name: fxT1, Labels: map[string]string{"a": "b"}})
+			return e
+		},
 		func() error { _, e := s.Pub.CreateTopic(ctx, &pubsubpb.Topic{Name: fxT2}); return e },
 		func() error { _, e := s.Pub.CreateTopic(ctx, &pubsubpb.Topic{Name: fxTdel}); return e },
-		func() error { _, e := s.Sub.CreateSubscription(ctx, &pubsubpb.Subscription{Name: fxS1, Topic: fxT1}); return e },
+		func() error {
+			_, e := s.Sub.CreateSubscription(ctx, &pubsubpb.Subscription{Name: fxS1, Topic: fxT1})
+			return e
+		},
 		func() error {
 			_, e := s.Sub.CreateSubscription(ctx, &pubsubpb.Subscription{Name: fxS2, Topic: fxT1, EnableMessageOrdering: true, Filter: `attributes:x`,
 				DeadLetterPolicy: &pubsubpb.DeadLetterPolicy{DeadLetterTopic: fxT2, MaxDeliveryAttempts: 2},
 				RetryPolicy:      &pubsubpb.RetryPolicy{MinimumBackoff: durationpb.New(time.Second)}})
 			return e
 		},
-		func() error { _, e := s.Sub.CreateSubscription(ctx, &pubsubpb.Subscription{Name: fxSdel, Topic: fxTdel}); return e },
-		func() error { _, e := s.Sub.DeleteSubscription(ctx, &pubsubpb.DeleteSubscriptionRequest{Subscription: fxSdel}); return e },
+		func() error {
+			_, e := s.Sub.CreateSubscription(ctx, &pubsubpb.Subscription{Name: fxSdel, Topic: fxTdel})
+			return e
+		},
+		func() error {
+			_, e := s.Sub.DeleteSubscription(ctx, &pubsubpb.DeleteSubscriptionRequest{Subscription: fxSdel})
+			return e
+		},
 		func() error { _, e := s.Pub.DeleteTopic(ctx, &pubsubpb.DeleteTopicRequest{Topic: fxTdel}); return e },
 		func() error {
 			r, e := s.Pub.Publish(ctx, &pubsubpb.PublishRequest{Topic: fxT1, Messages: []*pubsubpb.PubsubMessage{
@@ -83,7 +95,10 @@ func buildFixture(ctx context.Context, s *sut.SUT) (*fixture, error) {
 			}
 			return e
 		},
-		func() error { _, e := s.Sub.CreateSnapshot(ctx, &pubsubpb.CreateSnapshotRequest{Name: fxN1, Subscription: fxS1}); return e },
+		func() error {
+			_, e := s.Sub.CreateSnapshot(ctx, &pubsubpb.CreateSnapshotRequest{Name: fxN1, Subscription: fxS1})
+			return e
+		},
 	}
 	for i, st := range steps {
 		if err := st(); err != nil {
